@@ -189,3 +189,41 @@ func TestCtxAfterFunc(t *testing.T) {
 		}
 	}
 }
+
+func TestTargetNthHold(t *testing.T) {
+	// task A passes the target site twice; the second arrival is held back hard: B gets (nearly) all its 30 steps in between
+	late := 0
+	for seed := uint64(1); seed <= 50; seed++ {
+		var order []string
+		s := New(Config{Seed: seed, Strategy: "target", TargetSite: 7, TargetNth: 2, MaxSteps: 10000})
+		s.Run(func() {
+			done := make(chan struct{}, 2)
+			Go(1, func() {
+				AtomicPoint(7)
+				order = append(order, "a1")
+				AtomicPoint(7)
+				order = append(order, "a2")
+				SendWait(2, done)
+				done <- struct{}{}
+			})
+			Go(3, func() {
+				for i := 0; i < 30; i++ {
+					Yield(4)
+				}
+				order = append(order, "b-done")
+				SendWait(5, done)
+				done <- struct{}{}
+			})
+			RecvWait(6, done)
+			<-done
+			RecvWait(6, done)
+			<-done
+		})
+		if fmt.Sprint(order) == "[a1 b-done a2]" {
+			late++
+		}
+	}
+	if late < 30 {
+		t.Fatalf("the second arrival was held until the other task had finished in only %d of 50 runs", late)
+	}
+}
